@@ -2,7 +2,8 @@
 import re
 
 from .. import absint, ipatoms, lib, mir
-from ..mir import render
+from .. import lib_sec as S
+from ..mir import render, strip_generics
 
 EXPLANATION = ("ipv4_global::is_global and ipv6_global::is_global (with their local helpers inlined; std::net predicates are trusted atoms with "
                "their documented prefix sets) are evaluated abstractly on cells = products of per-octet / per-segment value sets; cells are "
@@ -16,6 +17,10 @@ ASSUMPTIONS = ["std::net::Ipv4Addr/Ipv6Addr predicates have their documented pre
                "(2001:30::/28, 3fff::/20, 5f00::/16, 2001:1::3/128, 100:0:0:1::/64) and reachable/N-A blocks are don't-care"]
 C = "libp2p_core"
 
+SELFTEST = [
+    {"mutation": "Ip6 arm dials without the is_global check", "caught_by": "dial/inner dial only if the leading IP is global"},
+    {"neutral": "neutral/sec/09 (arm bodies extracted into the private helper dial_if_global(ip, is_global, addr, opts))", "silent": True},
+]
 
 def classify(ctx, name, crate, body_pat, width, ncomp, comps_pat, atoms, table_file):
     prog = ctx.prog
@@ -52,46 +57,126 @@ def check(ctx):
     classify(ctx, "ipv4", C, r"global_only::ipv4_global::is_global$", 8, 4, r"net::Ipv4Addr::octets$", ipatoms.v4_atoms(), "iana_special_v4.json")
     classify(ctx, "ipv6", C, r"global_only::ipv6_global::is_global$", 16, 8, r"net::Ipv6Addr::segments$", ipatoms.v6_atoms(), "iana_special_v6.json")
     # ---- dial
-    d = ctx.body(C, r"<transport::global_only::Transport as transport::Transport>::dial$")
-    inner = d.call_sites(r"Transport>::dial$|Transport::dial$")
-    ctx.floor("dial", "inner.dial call sites", inner, 2)
-    for s in inner:
-        r = render(d.site_expr(s))
-        ctx.ob("dial", "dials the inner transport with the given address", r.startswith("<T as transport::Transport>::dial(self.inner, addr, opts)") or "self.inner, addr, opts)" in r, s.loc(), r[:160])
-        ctx.guarded("dial", "inner dial only if the leading IP is global", s,
-                    lambda c, rr, l: (l == "true" and re.match(r"^libp2p_core::transport::global_only::ipv[46]_global::is_global\(.*@Some\.0@Ip[46]\.0\)$", rr) is not None) or
-                    (l == "false" and re.match(r"^Not\(libp2p_core::transport::global_only::ipv[46]_global::is_global\(.*@Some\.0@Ip[46]\.0\)\)$", rr) is not None), "is_global(first ip)")
-        ctx.guarded("dial", "inner dial only if the first component is an IP", s,
-                    lambda c, rr, l: l in ("Ip4", "Ip6") and rr.startswith("discr(") and re.search(r"Iterator>::next\(\w+::Multiaddr::iter\(addr\)\)@Some\.0\)$", rr) is not None, "addr.iter().next() is Ip4/Ip6")
-    # the checked address is the first component of the dialled address; v4 check for Ip4, v6 for Ip6
-    for bi in sorted(d.live):
-        info = d.switch_info(bi)
-        if info:
-            m = re.match(r"^(Not\()?libp2p_core::transport::global_only::ipv([46])_global::is_global\((.*)\)\)?$", render(info[0]))
-            if m:
-                ok = re.search(r"Iterator>::next\(\w+::Multiaddr::iter\(addr\)\)@Some\.0@Ip%s\.0$" % m.group(2), m.group(3)) is not None
-                ctx.ob("dial", "ipv%s table applied to the address's own first Ip%s component" % (m.group(2), m.group(2)), ok, "%s:%d" % (d.file, d.blocks[bi]["term"].get("l", 0)), m.group(3)[-120:])
+    dial_policy(ctx)
+
+
+def callee_is(e, pat):
+    return e[0] == "call" and re.search(pat, strip_generics(e[1])) is not None
+
+
+def dial_policy(ctx):
+    """inner.dial only after is_global == true on the leading Ip4/Ip6 component (v4 table for Ip4, v6 for Ip6); non-global and every
+    other first component => MultiaddrNotSupported(addr) without dialing.  The test + dial may sit in the match arm or in a
+    crate-local helper called from the arm (followed one level)."""
+    prog = ctx.prog
+    d = S.canon_args(ctx.body(C, r"<transport::global_only::Transport as transport::Transport>::dial$"), ["self", "addr", "opts"])
+    adt = prog.adt(C, r"transport::global_only::Transport$")
+    inner_f = [f["n"] for f in adt["variants"][0]["fields"]]
+    inner_f = inner_f[0] if len(inner_f) == 1 else "inner"
+
+    def inner_dials(b):
+        return [s for s in b.call_sites(r"Transport>::dial$|Transport::dial$") if S.self_field(b.site_expr(s)[2][0], inner_f)]
+
+    def first_comp(e):
+        """e is the first component of the dialled address: success payload of addr.iter().next()"""
+        e = S.peel(S.norm(e))
+        return (callee_is(e, r"^ok$") and callee_is(e[2][0], r"Iterator>?::next$") and callee_is(S.peel(e[2][0][2][0]), r"Multiaddr::iter$")
+                and S.is_arg(S.peel(S.peel(e[2][0][2][0])[2][0]), 2))
+
+    def first_ip(e, ver=None):
+        """e is the payload of the first component matched as Ip4 / Ip6; returns the version or None"""
+        e = S.peel(S.norm(e))
+        if e[0] == "field" and e[2] == "0" and e[1][0] == "downcast" and e[1][2] in ("Ip4", "Ip6") and first_comp(e[1][1]):
+            v = e[1][2][-1]
+            return v if ver in (None, v) else None
+        return None
+
+    def global_test(e):
+        """e is ipv{4,6}_global::is_global(<first IpN payload>) with matching N: returns N"""
+        m = re.search(r"global_only::ipv([46])_global::is_global$", strip_generics(e[1])) if e[0] == "call" else None
+        if m and len(e[2]) == 1 and first_ip(e[2][0], m.group(1)):
+            return m.group(1)
+        return None
+    direct = inner_dials(d)
+    via = []            # (call site in dial, helper body, helper's inner dial sites)
+    for s in d.call_sites(r"^libp2p_core::transport::global_only::"):
+        h = S.crate_callee(prog, d, s)
+        if h is not None and h is not d and inner_dials(h) and S.is_arg(S.peel(d.site_expr(s)[2][0]), 1):
+            via.append((s, h, inner_dials(h)))
+    ctx.floor("dial", "inner.dial call sites", direct + [s for s, _, _ in via], 2)
+    is_ip = d.guard_edges(lambda c, r, l: l in ("Ip4", "Ip6") and c[0] == "discr" and first_comp(c[1]))
+    glob_true, _ = S.truth_edges(d, lambda c: global_test(c) is not None)
+    _, glob_false = S.truth_edges(d, lambda c: global_test(c) is not None, close=False)
+    for s in direct:
+        e = d.site_expr(s)
+        ctx.ob("dial", "dials the inner transport with the given address", len(e[2]) == 3 and S.is_arg(S.peel(e[2][1]), 2) and S.is_arg(S.peel(e[2][2]), 3), s.loc(), render(e)[:160])
+        S.guarded(ctx, "dial", "inner dial only if the leading IP is global", s, glob_true, "is_global(first ip)")
+        S.guarded(ctx, "dial", "inner dial only if the first component is an IP", s, is_ip, "addr.iter().next() is Ip4/Ip6")
+    ng_edges = set(glob_false)
+    for s, h, hd in via:
+        ctx.use(h)
+        a = d.site_expr(s)[2]
+        S.guarded(ctx, "dial", "inner dial only if the first component is an IP", s, is_ip, "addr.iter().next() is Ip4/Ip6")
+        # which parameter of the helper decides: a bool parameter, or the IP parameter tested inside with is_global
+        decided = False
+        for k in range(2, h.argc + 1):
+            if h.locals[k] == "bool":
+                t_e, _ = S.truth_edges(h, lambda c, k=k: S.is_arg(c, k))
+                _, f_e = S.truth_edges(h, lambda c, k=k: S.is_arg(c, k), close=False)
+                actual_ok = k - 1 < len(a) and a[k - 1][0] == "call" and global_test(a[k - 1]) is not None
+            else:
+                gp = lambda c, k=k: callee_is(c, r"global_only::ipv[46]_global::is_global$") and len(c[2]) == 1 and S.is_arg(S.peel(c[2][0]), k)
+                t_e, _ = S.truth_edges(h, gp)
+                _, f_e = S.truth_edges(h, gp, close=False)
+                ver = {re.search(r"ipv([46])_global", strip_generics(x[1])).group(1) for bi in h.live if h.switch_info(bi) for x in mir.walk(h.switch_info(bi)[0])
+                       if x[0] == "call" and re.search(r"ipv[46]_global::is_global$", strip_generics(x[1])) and len(x[2]) == 1 and S.is_arg(S.peel(x[2][0]), k)}
+                actual_ok = k - 1 < len(a) and len(ver) == 1 and first_ip(a[k - 1], next(iter(ver))) is not None
+            if not t_e or not all(h.must_pass_edges(x.bb, t_e) for x in hd):
+                continue
+            decided = True
+            ctx.ob("dial", "inner dial only if the leading IP is global", actual_ok, s.loc(),
+                   "helper %s dials only when its parameter #%d holds; the caller passes %s" % (h.short[-40:], k - 1, S.nrender(a[k - 1])[:120] if k - 1 < len(a) else "?"))
+            for x in hd:
+                e = h.site_expr(x)
+                j = [i for i in range(2, h.argc + 1) if S.is_arg(S.peel(e[2][1]), i)]
+                ctx.ob("dial", "dials the inner transport with the given address", len(j) == 1 and j[0] - 1 < len(a) and S.is_arg(S.peel(a[j[0] - 1]), 2), x.loc(), render(e)[:160])
+            for _, t in f_e:
+                r = h.reachable([t])
+                ctx.ob("dial", "non-global IP => no inner dial", not ({x.bb for x in hd} & r), msg="non-global edge of the helper cannot reach inner.dial")
+                errs = [x for x in S.ret_sites(h, S.is_err_agg) if x.bb in r and "TransportError::MultiaddrNotSupported{0: " in render(h.site_expr(x))]
+                ctx.ob("dial", "non-global IP => MultiaddrNotSupported(addr)", len(errs) >= 1, msg="Err(MultiaddrNotSupported(addr))")
+            ng_edges |= {("helper", s.bb, t) for _, t in f_e}
+            break
+        if not decided:
+            ctx.ob("dial", "inner dial only if the leading IP is global", False, s.loc(), "helper %s dials without a test the caller's is_global result controls" % h.short[-40:])
+    # the v4 table is applied to the Ip4 payload, the v6 table to the Ip6 payload, of the address's own first component
+    tests = [x for bi in d.live for x in ([y for y in mir.walk(d.switch_info(bi)[0])] if d.switch_info(bi) else []) if x[0] == "call" and re.search(r"ipv[46]_global::is_global$", strip_generics(x[1]))]
+    tests += [x for s in d.call_sites() for a in d.site_expr(s)[2] for x in mir.walk(a) if x[0] == "call" and re.search(r"ipv[46]_global::is_global$", strip_generics(x[1]))]
+    for x in tests:
+        v = re.search(r"ipv([46])_global", strip_generics(x[1])).group(1)
+        ctx.ob("dial", "ipv%s table applied to the address's own first Ip%s component" % (v, v), global_test(x) == v, "%s:%d" % (d.file, d.line), S.nrender(x)[-160:])
+    ctx.ob("dial", "floor:is_global tests", len({strip_generics(x[1]) for x in tests}) == 2, nontrivial=False, msg="%d tests" % len(tests))
     # non-IP first component / non-global => MultiaddrNotSupported, no dial
-    first = [bi for bi in d.live if d.switch_info(bi) and render(d.switch_info(bi)[0]).startswith("discr(") and render(d.switch_info(bi)[0]).endswith("Multiaddr::iter(addr))@Some.0)")]
+    all_dials = set(lib.bbs(direct)) | {s.bb for s, _, _ in via}
+    first = [bi for bi in d.live if d.switch_info(bi) and d.switch_info(bi)[0][0] == "discr" and first_comp(d.switch_info(bi)[0][1]) and
+             {"Ip4", "Ip6"} <= {x for ls in d.switch_info(bi)[1].values() for x in ls}]
     ctx.floor("dial", "first-component switch", first, 1)
+
+    def refusals(body, r):
+        return [x for x in S.ret_sites(body, S.is_err_agg) if x.bb in r and "TransportError::MultiaddrNotSupported{0: addr}" in render(body.site_expr(x))]
     for bi in first:
         cond, labs = d.switch_info(bi)
         for tgt, ls in labs.items():
             if ls & {"Ip4", "Ip6"}:
                 continue
             r = d.reachable([tgt])
-            ctx.ob("dial", "any other first component is refused without dialing", not (set(lib.bbs(inner)) & r), "%s:%d" % (d.file, d.line), "%d non-IP variants reach no inner.dial" % len(ls))
-            errs = [x for x in d.defs[0] if x[1] in r and x[0] == "stmt" and "TransportError::MultiaddrNotSupported{0: addr}" in render(d.rvalue_expr(x[3]))]
-            ctx.ob("dial", "refusal is MultiaddrNotSupported(addr)", len(errs) >= 1, "%s:%d" % (d.file, d.line), "Err(MultiaddrNotSupported(addr))")
-    none = lib.switch_edges_on(d, r"^discr\(<\w+(::multiaddr)?::Iter as std::iter::Iterator>::next\(\w+::Multiaddr::iter\(addr\)\)\)$", {"None"})
+            ctx.ob("dial", "any other first component is refused without dialing", not (all_dials & r), "%s:%d" % (d.file, d.line), "%d non-IP variants reach no inner.dial" % len(ls))
+            ctx.ob("dial", "refusal is MultiaddrNotSupported(addr)", len(refusals(d, r)) >= 1, "%s:%d" % (d.file, d.line), "Err(MultiaddrNotSupported(addr))")
+    _, none = S.outcome_edges(d, lambda v: callee_is(v, r"Iterator>?::next$") and callee_is(S.peel(v[2][0]), r"Multiaddr::iter$"), close=False)
     for _, t in none:
-        ctx.ob("dial", "empty address is refused without dialing", not (set(lib.bbs(inner)) & d.reachable([t])), msg="None => MultiaddrNotSupported")
-    for nm in ("false", "true"):
-        pass
-    ng = lib.switch_edges_on(d, r"^libp2p_core::transport::global_only::ipv[46]_global::is_global\(", {"false"}) | lib.switch_edges_on(d, r"^Not\(libp2p_core::transport::global_only::ipv[46]_global::is_global\(", {"true"})
-    ctx.ob("dial", "floor:non-global edges", len(ng) == 2, nontrivial=False, msg=str(sorted(ng)))
-    for _, t in ng:
+        ctx.ob("dial", "empty address is refused without dialing", not (all_dials & d.reachable([t])), msg="None => MultiaddrNotSupported")
+    ctx.ob("dial", "floor:non-global edges", len(ng_edges) == 2, nontrivial=False, msg=str(sorted(map(str, ng_edges))))
+    for _, t in glob_false:
         r = d.reachable([t])
-        ctx.ob("dial", "non-global IP => no inner dial", not (set(lib.bbs(inner)) & r), msg="non-global edge cannot reach inner.dial")
-        errs = [x for x in d.defs[0] if x[1] in r and x[0] == "stmt" and "TransportError::MultiaddrNotSupported{0: addr}" in render(d.rvalue_expr(x[3]))]
-        ctx.ob("dial", "non-global IP => MultiaddrNotSupported(addr)", len(errs) >= 1, msg="Err(MultiaddrNotSupported(addr))")
+        ctx.ob("dial", "non-global IP => no inner dial", not (all_dials & r), msg="non-global edge cannot reach inner.dial")
+        ctx.ob("dial", "non-global IP => MultiaddrNotSupported(addr)", len(refusals(d, r)) >= 1, msg="Err(MultiaddrNotSupported(addr))")
